@@ -34,3 +34,15 @@ class Square(_Shape):
 
   def perimeter(self, unit=0):
     return ('perimeter', self.side, unit)
+
+
+def _traced(fn):
+  import functools
+
+  @functools.wraps(fn)
+  def wrapper(*args, **kwargs):
+    return fn(*args, **kwargs)
+  return wrapper
+
+
+traced_f = _traced(f)     # a decorated variant of `f`: another object, with a configurable of its own
